@@ -23,6 +23,7 @@ sys.path.insert(0, os.path.join(os.path.dirname(os.path.abspath(__file__)), ".."
 import verif
 import ttx_util as T
 import ttx03_util as X
+import ttx03_units as U
 
 hx = T.hx
 DATE = " Mon 01 Jan "
@@ -546,7 +547,8 @@ class C03(verif.Spec):
     prop = "C03"
     comp = "ttx"
     lean_modules = ["ZvbiModel.Props.C03", "ZvbiModel.Props.C03X26", "ZvbiModel.Props.C03Tx", "ZvbiModel.Props.C03Cache",
-                    "ZvbiModel.Props.C03Join", "ZvbiModel.Props.C03Mip", "ZvbiModel.Props.C03Hdr8"]
+                    "ZvbiModel.Props.C03Join", "ZvbiModel.Props.C03Mip", "ZvbiModel.Props.C03Hdr8", "ZvbiModel.Props.C03Unit",
+                    "ZvbiModel.Props.C03Refine"]
     harness = "ttx_harness"
     harness_link_lib = True
     timeout_per_case = 8.0
@@ -558,9 +560,9 @@ class C03(verif.Spec):
                    "cache memory limit (2^30) is not reached", "frames arrive with regular time stamps except at `gap`"]
     trusted_base = ["harness/ttx_harness.c + lean/Driver/Ttx.lean (correspondence on generated transmissions)",
                     "lib/ttx_util.py: sender-side encoders written from EN 300 706 (checked against the Hamm model)",
-                    "cache abstracted as an MRU list; joined with the C10 cache model per operation (Props/C03Join, C10Ttx), the side conditions of the store along a history are assumed"]
+                    "cache abstracted as an MRU list; joined with the C10 cache model along whole histories (Props/C03Join, C03Refine, C10Ttx) under the residual hypotheses memory-never-short and page type < 256"]
     open_statements = ["hdr8_never_read_full (Props/C03Hdr8): whole-history bisimulation that raw[0][0..7] (verbatim header Hamming bytes) is never read; proved are its local steps (store_lop verdict + header copy, Level 1 formatter), missing is carrying the relation through the cache (the page is stored and fetched back with these bytes)",
-                       "ttx_refined_by_cache_full (Props/C03Join): unconditional whole-history refinement of the MRU list by the cache.c model; proved: the list evolves only by get / put / clear operations over every history (cache_evolves_by_cache_operations) and each such operation is simulated (cache_operations_are_simulated); missing: discharging the side conditions of the store along a history (memory never short, network found, the decoder's page type = the page_type of the cache.c statistics, Sim under the interleaved unref calls)",
+                       "ttx_refined_by_cache_full (Props/C03Join): unconditional whole-history refinement of the MRU list by the cache.c model; proved (Props/C03Refine, ttx_refined_by_cache_partial): for every history the joint invariant (C10 invariant Good, the decoder's network on the list and held, Sim) is carried along the whole mirrored trace - network found, page number of every store in 0x100..0x8FF, page type agreement, the interleaved unref calls, the store not failing are all discharged - under TWO residual hypotheses about the trace: (1) MemNeverShort, memory_used + cache_page_size <= 2^30 at every store (reduced to counting pages: memory_never_short_while_few_pages, at most 0x800 x 80 pages; the per-page-number bound proved is 256 (mirrored_versions_bounded), too coarse; missing: a bound of 80 versions per page number from the key rule, all pages in the one network across vbi_chsw_reset, distinct keys in the decoder's list), (2) every page type the decoder passes to a store is < 256 (uint8_t; needs a statistics invariant over Ttx.step)",
                        "live_triplets_were_transmitted_full (Props/C03Tx): refuted for the unrepaired code (finding C03-enh-zero-filler, ttxFixEnhFiller = false); not proved for the repaired shape (needs an invariant over the cache: every cached enh array consists of transmitted triplets and unused entries)",
                        "MIP: single-error invisibility is proved for the decode at page end and for the closing header (Props/C03Mip); the flipped byte itself stays in the assembly slot and is copied into a following MOT/BTT page of the slot (dead data, never decoded): a full-trace equality would have to be stated modulo the raw rows of non-LOP pages",
                        "bad_header_refused_full / subpage_number_is_transmitted_full: proved under ttxFixF21 = true (current tree), refuted for the unrepaired code"]
@@ -811,6 +813,29 @@ class C03(verif.Spec):
                 how = "swapped"
             c = ["note x26gap " + how] + stream_ops(pk) + dumps(tx, full=False)
             cases.append(self.tag(c, "x26gap", tx))
+        # 11. double-bit error in protected unit k vs. the packet removed, for EVERY unit k (one Hamming 8/4 byte or one
+        #     Hamming 24/18 triplet) of one packet of every kind the decoder validates (lib/ttx03_units.py; theorems
+        #     Props/C03Unit.lean for X/28 and M/29).  `strict` units: removed ; reset ; damaged must be identical;
+        #     `contained` units: removed ; reset ; error free ; reset ; damaged, atom by atom
+        shapes = []
+        for _ in range(1 if quick else 6):
+            shapes += U.unit_shapes(rng, Tx, hdr_text, f22_fixed=bool(fix_flags().get("ttxFixF22")))
+        for label, utag, tx, i, extra in shapes:
+            pk = tx.pk
+            d = dumps(tx) + extra
+            removed = stream_ops(pk, dropped=i) + d
+            clean = stream_ops(pk) + d
+            for uname, positions, rule in U.UNITS[utag]:
+                f = [(list(b), t) for b, t in pk]
+                f[i] = (U.damage(rng, f[i][0], positions), f[i][1])
+                note = "note twin unit2 shape=%s class=%s unit=%s rule=%s" % (label, utag, uname, rule)
+                if rule == "strict":
+                    c = [note] + removed + ["reset"] + stream_ops(f) + d
+                elif rule == "mip":
+                    c = [note] + clean + ["reset"] + stream_ops(f) + d
+                else:
+                    c = [note] + removed + ["reset"] + clean + ["reset"] + stream_ops(f) + d
+                cases.append(self.tag(c, "unit2", tx))
         return cases
 
     def tag(self, case, kind, tx):
@@ -1034,6 +1059,35 @@ class C03(verif.Spec):
                 return "unexpected event type"
         kind, tx, head = self.directives(case)
         halves = self.split_halves(case, out)
+        if head.startswith("# twin unit2") and tx is None:
+            return None         # the sender knowledge line (with the digest of the stream) is gone: a shrunk case, whose halves are no twins any more
+        if head.startswith("# twin unit2"):
+            m = re.search(r"class=(\w+) unit=(\w+) rule=(\w+)", head)
+            cls, unit, rule = m.group(1), m.group(2), m.group(3)
+            what = None
+            if rule == "strict" and len(halves) == 2:
+                a = self.observable(*halves[0])
+                b = self.observable(*halves[1])
+                if a != b:
+                    diff = "events" if a[0] != b[0] else next((o for (o, x), (_, y) in zip(U.dump_lines(*halves[0]), U.dump_lines(*halves[1])) if x != y), "dump")
+                    what = "%s with an uncorrectable %s is not refused: it differs from the transmission without the packet (%s; %s)" % (
+                        U.CLASS.get(cls, cls), "address" if unit.startswith("addr") else "designation" if unit == "designation" else "unit", unit, diff)
+            elif rule == "mip" and len(halves) == 2 and tx is not None:
+                what = self.mip_contained(halves[0], halves[1])
+            elif rule == "contained" and len(halves) == 3:
+                w = U.judge_contained(halves[0], halves[1], halves[2], abandon_ok=cls == "hdr")
+                if w:
+                    what = "%s with an uncorrectable unit leaves a value that neither the error free transmission nor the transmission without the packet shows (%s; %s)" % (
+                        U.CLASS.get(cls, cls), unit, w)
+            if what:
+                return what
+            # containment of what is cached: the error-free and the damaged run (without its header / address a
+            # packet's neighbours land in another page: judged per magazine, like the other lossy kinds)
+            for o, r in halves[-2:] if rule == "contained" else halves[-1:]:
+                w = self.containment(tx, o, r, maglevel=unit.startswith("addr") or cls == "hdr")
+                if w:
+                    return w
+            return None
         if head.startswith("# twin contain") and len(halves) == 2:
             w = self.fault_contained(halves[0], halves[1])
             if w:
@@ -1112,8 +1166,15 @@ class C03(verif.Spec):
         return out
 
     def signature(self, case, what):
+        full = what
         what = re.sub(r"\([^)]*\)", "", what).strip()
         kind, tx, head = self.directives(case)
+        m = re.search(r"twin unit2 shape=btt/(\d+) class=btt", head)
+        if m and 1 <= int(m.group(1)) <= 20 and "uncorrectable unit leaves a value" in what and \
+                re.search(r"; stat (page type|subpages|character set) of page ", full):
+            # finding C03-btt-break-misaligns: parse_btt leaves the inner loop with `break` on an uncorrectable byte,
+            # `index` and `raw` are then out of step for the rest of the row
+            return "BTT page-type row: entries behind an uncorrectable byte are applied to the wrong pages"
         m = re.search(r"fault hdr2 pkt=\d+ pos=(\d+)", head)
         if m and int(m.group(1)) in (4, 5) and "not transmitted" in what and "under a page number" not in what:
             # F21 (repaired in /repo e19028b): header whose S1/S2 byte pair is uncorrectable while S3/S4 != 0 was accepted
